@@ -1,0 +1,14 @@
+//go:build verif
+
+// Contracts for the verif build tag: comment-only, read by /verif/engine (govc).
+package doq
+
+//@ # ---- C10: every DoQ query is answered on ITS OWN stream: the writer handed to the pipeline is created for this
+//@ # query (never shared between the streams of a connection) and is bound to the connection and the stream the query
+//@ # was read from; the pipeline is entered once per stream
+//@ func (*Server).handleStream
+//@   abstract
+//@   nosafety all pre
+//@   assert at store doq.ResponseWriter.Conn#1: value == conn
+//@   assert at store doq.ResponseWriter.Stream#1: value == stream
+//@   assert at call (server/doq.Handler).ServeMsg#1: calls("(server/doq.Handler).ServeMsg") == 0 && dyntype(arg2, *ResponseWriter) && as(arg2, *ResponseWriter).Stream == stream && as(arg2, *ResponseWriter).Conn == conn && arg3 == lastret("server/doq.acquireMsg")
